@@ -168,6 +168,10 @@ type SeqRun struct {
 	Sig      string
 	// Generation weights.
 	BranchOps bool
+	// NoClientScans keeps the issuing client from querying after each op, so
+	// that derived files (commit snapshots) are only written by the
+	// operations themselves (C17 wants their writes among the crash points).
+	NoClientScans bool
 }
 
 func NewSeqRun(e *Env, c *Client, pm *PoolM, keyRange int, sig string) *SeqRun {
@@ -686,8 +690,10 @@ func (r *SeqRun) Verify(op *Op, ex *Expect, commit ksuid.KSUID, when string) *ke
 	r.CObjs[commit] = objs
 	r.Acked = append(r.Acked, commit)
 	// The state read by name and by id, cold and warm.
-	if v := r.E.CheckScan(r.C, r.PM, b.Name, r.usOf(objs), sig, when+" (issuing handle, by branch name)"); v != nil {
-		return v
+	if !r.NoClientScans {
+		if v := r.E.CheckScan(r.C, r.PM, b.Name, r.usOf(objs), sig, when+" (issuing handle, by branch name)"); v != nil {
+			return v
+		}
 	}
 	obs, err := r.E.W.Open(r.E.Ctx, "observer", false)
 	if err != nil {
